@@ -69,6 +69,18 @@ def type_of_term(ctx, body, term):
     if term[0] == "cparam":
         i = term[1] + 1
         return body.locals[i]["ty"] if i < len(body.locals) else None
+    if term[0] == "upvar" and "::{closure#" in body.defn:
+        # a variable captured by a closure: its type is the type of the captured place in the enclosing function
+        parent = body.defn.rsplit("::{closure#", 1)[0]
+        if parent in ctx.facts.bodies:
+            pb = mir.get_body(ctx.facts, parent)
+            agg = _closure_agg(pb, body.defn)
+            if agg is not None:
+                cb, m = mir.closure_body(ctx.facts, agg)
+                op = (m or {}).get(term[1])
+                if op is not None:
+                    ty = type_of_term(ctx, pb, op)
+                    return ty
     if term[0] == "proj":
         ty = type_of_term(ctx, body, term[1])
         variant = None
